@@ -13,7 +13,8 @@ VIOLATES_FN = "violates"
 RULE = ("cases = 1-5 epoch definitions side by side, identifiers drawn from 28 arbitrary strings (plain, leading / trailing / inner "
         "whitespace, tab, newline, no-break space, whitespace-only, upper/lower-case variants, non-ASCII, prefixes of one "
         "another) at genesis and later (zero / past / present / future start time, durations 1ns..1 week, re-imported running "
-        "epochs; ~20% of cases carry malformed definitions: zero or negative duration, empty or duplicate identifier, "
+        "epochs, a third of them with counting started at epoch 0 — their advance 0->1 is an ordinary one with "
+        "AfterEpochEnd(id,0); ~20% of cases carry malformed definitions: zero or negative duration, empty or duplicate identifier, "
         "inconsistent counters) followed by 6-22 ops: BeginBlocker at generated times (steps 0, 1ns, d/3, d/2, d-1, d, d+1, 2d, "
         "3..9d+d/3 of a defined duration d; 10% of direct cases also step backwards) and later AddEpochInfo calls; 1 case in 8 "
         "runs through the whole application BeginBlock/EndBlock/Commit with the epochs in the genesis file; in 1 direct case in 3 "
@@ -157,6 +158,8 @@ def _walk(rec):
             yield ("add-ok" if o["ok"] else "add-rejected", None)
             if op.get("started"):
                 yield ("add-running-epoch", None)
+                if not op.get("cur") and o["ok"]:
+                    yield ("add-running-epoch-at-0", None)
         elif op["op"] == "init":
             gen = _gen_of(op, o)
             ids = [g.get("ident", "") for g in gen]
@@ -191,6 +194,8 @@ def _walk(rec):
             starts = [c for c in o["log"] or [] if c["kind"] == "start" and c["rec"] == 0]
             for c in ends:
                 yield ("later-tick", c["ident"])
+                if c["n"] == 0:
+                    yield ("advance-0-to-1-of-started-epoch", None)
             if len(starts) > len(ends):
                 yield ("first-tick", None)
             for e in o["infos"] or []:
